@@ -438,11 +438,12 @@ def primaryCommit : List Attempt → Bool → Bool × CommitRes
 inductive Answer | nil | undetermined | other
   deriving DecidableEq, Repr
 
-/-- `commitFlushedMutations` returns the error of `commitMutations(primary)` as it is: unlike `commitTxn` of ordinary 2PC
-    it does not turn it into ErrResultUndetermined when the undetermined flag is set -/
+/-- `commitFlushedMutations` (as `commitTxn` of ordinary 2PC): an error of `commitMutations(primary)` is reported as
+    ErrResultUndetermined when the undetermined flag is set, and as it is otherwise -/
 def pipelinedAnswer : CommitRes → Answer
   | .ok => .nil
-  | .err _ => .other
+  | .err true => .undetermined
+  | .err false => .other
 
 /-- the caller must not be told a definite failure for a committed transaction, nor success for an uncommitted one -/
 def answerMatchesOutcome (a : Answer) (committed : Bool) : Bool :=
